@@ -657,16 +657,13 @@ func genC08(e *emitter) {
 		}
 		fmt.Fprintf(&b, "  (%s.toList, %s.toList)%s\n", leanStr(r.Path), leanStr(r.Handler), sep)
 	}
-	b.WriteString("]\n\n/-- normalised source text of the helpers whose logic the model transcribes -/\n")
-	b.WriteString("def c08Helpers : List (List Char × List Char) := [\n")
-	for i, h := range helpers {
-		sep := ","
-		if i == len(helpers)-1 {
-			sep = ""
-		}
-		fmt.Fprintf(&b, "  (%s.toList, %s.toList)%s\n", leanStr(h.Name), leanStr(h.Body), sep)
-	}
 	b.WriteString("]\n\n")
+	// normalised source text of the helpers whose logic the model transcribes: explicit character
+	// lists (a string literal's `.toList` costs the kernel seconds per helper), text in the doc comment
+	for _, h := range helpers {
+		fmt.Fprintf(&b, "/-- `%s` reads: %s -/\ndef c08Helper_%s : List Char := %s\n\n",
+			h.Name, strings.ReplaceAll(h.Body, "-/", "- /"), strings.ReplaceAll(h.Name, ".", "_"), c08LeanChars(h.Body))
+	}
 	var ls []string
 	for _, v := range lifetimes {
 		ls = append(ls, fmt.Sprintf("%d", v))
@@ -685,6 +682,28 @@ func genC08(e *emitter) {
 	e.facts["c08_routes"] = routes
 	e.facts["c08_helpers"] = helpers
 	e.facts["c08_admincache_lifetimes_ns"] = lifetimes
+}
+
+// c08LeanChars renders s as an explicit Lean `List Char` literal.
+func c08LeanChars(s string) string {
+	var parts []string
+	for _, r := range s {
+		switch {
+		case r == '\'':
+			parts = append(parts, `'\''`)
+		case r == '\\':
+			parts = append(parts, `'\\'`)
+		case r == '\n':
+			parts = append(parts, `'\n'`)
+		case r == '\t':
+			parts = append(parts, `'\t'`)
+		case r < 0x20 || r == 0x7f:
+			parts = append(parts, fmt.Sprintf("(Char.ofNat %d)", r))
+		default:
+			parts = append(parts, "'"+string(r)+"'")
+		}
+	}
+	return "[" + strings.Join(parts, ", ") + "]"
 }
 
 func c08SortedFileNames(p *pkgInfo) []string {
